@@ -6,6 +6,7 @@ driver for the rec area: one op per line in, canonical dump of the whole record 
 Protocol (arguments that are texts are hex-encoded UTF-8, `-` = empty):
   new                     fresh runtime
   set0 H | self0 ($0 = $0) | setf I H | setnf N | sub P R | gsub P R | ofs H | fs H | ofmt H | strip 0/1
+  setnfv K H N | getlinenf H N | incnf | decnf | postinc | addnf K | refcall J | refcallnf
   getline H | getline (at EOF) | next H (main-loop record read) | read J | readnf
 The regular-expression matcher and the literal sub/gsub below exist only so that the driver
 can feed concrete values to the model; they are not part of any proof.
@@ -153,6 +154,14 @@ structure DSt where
 
 def ok (st : St) (extra : String := "") : DSt × String := ({ st := st }, dump st ++ extra)
 
+/-- every way of storing the integer `n` into NF (`NF = v`, `++NF`, `NF += k`, `getline NF`) -/
+def storeNF (d : DSt) (n : Int) (extra : String := "") : DSt × String :=
+  let st := d.st
+  let st' := Hawk.Rec.step rexMatch st (.setnf n)
+  if n < 0 then ({ d with dead := true }, "ERR einval " ++ dump st')
+  else if growFails st.r n.toNat then ({ st := st', dead := true }, "ERR enomem " ++ dump st')
+  else ok st' extra
+
 def step (d : DSt) (line : String) : DSt × String :=
   let ws := words line
   match ws with
@@ -167,13 +176,32 @@ def step (d : DSt) (line : String) : DSt × String :=
   | ["setf", i, h] => match i.toInt? with
     | some i =>
       if i < 0 then ({ d with dead := true }, "ERR eposidx " ++ dump st)
-      else ok (Hawk.Rec.step m st (.setf i.toNat (unhex h)))
+      else
+        let st' := Hawk.Rec.step m st (.setf i.toNat (unhex h))
+        if i ≠ 0 ∧ growFails st.r i.toNat then ({ st := st', dead := true }, "ERR enomem " ++ dump st')
+        else ok st'
     | none => (d, "bad-op")
   | ["setnf", n] => match n.toInt? with
-    | some n => match setNF st.e st.r n with
-      | .ok _ => ok (Hawk.Rec.step m st (.setnf n))
-      | .error _ => ({ d with dead := true }, "ERR einval " ++ dump (Hawk.Rec.step m st (.setnf n)))
+    | some n => storeNF d n
     | none => (d, "bad-op")
+  -- NF = <string | float | unset variable>; the last word is the integer hawk_rtx_valtoint makes of it
+  | ["setnfv", _, _, n] => match n.toInt? with
+    | some n => storeNF d n
+    | none => (d, "bad-op")
+  | ["getlinenf", _, n] => match n.toInt? with      -- getline NF
+    | some n => storeNF d n " c=1"
+    | none => (d, "bad-op")
+  | ["incnf"] => storeNF d (readNF st.r + 1)
+  | ["decnf"] => storeNF d (readNF st.r - 1)
+  | ["postinc"] => storeNF d (readNF st.r + 1) s!" c={readNF st.r}"
+  | ["addnf", k] => match k.toInt? with
+    | some k => storeNF d (readNF st.r + k)
+    | none => (d, "bad-op")
+  -- `$j` / NF passed to an `&` parameter of a function that only reads it: function f(&x) { return x "!" }
+  | ["refcall", j] => match j.toNat? with
+    | some j => let st' := Hawk.Rec.step m st (.read j); ok st' s!" y={esc (readVal st'.r j ++ ['!'])}"
+    | none => (d, "bad-op")
+  | ["refcallnf"] => let st' := Hawk.Rec.step m st .readnf; ok st' s!" y={readNF st'.r}%21"
   | [op, p, r] =>
     if op == "sub" || op == "gsub" then
       -- `&` in the replacement stands for the matched text (= the literal pattern)
